@@ -19,7 +19,8 @@ LEVEL_TEXT = ("Decides that every construct reachable from the tool's entry poin
               "accumulation without calls) or listed, with its argument, in a triage table; a new order-observing site, "
               "or a listed site whose construct changes, is reported. Also decides that uuid, clock and directory "
               "listing values reach only file-system paths, statistics and debug output. Equality of two actual runs "
-              "is not decided.")
+              "is not decided."
+              ' Added in seeding rounds 8-9: the triage reason of the topological-order site is a checked premise (no scratch container carried across the loop) and set algebra on dict views counts as a set.')
 EXPLANATION = ("Sites: for/comprehension/list()/tuple()/join/pop()/unpacking over an expression inferred to be a set "
                "(set()/set displays/set algebra/names and self-attributes assigned only such values/Set[...] parameters). "
                "Reachability is over-approximated (method calls resolved by name) from gasol_asm.execute_gasol.")
